@@ -163,3 +163,142 @@ pub fn expected_leaf_matches(kind: u8, c: [u8; 4], got: &Leaf) -> bool {
 pub fn model_ok() -> bool {
     unsafe { !pyo3::MODEL_BOUND_EXCEEDED }
 }
+
+// ------------------------------------------------------------------------------------
+// Scripted tokenizer results for SnmpOid::try_from(&str) (same cut as c08::arcs_N): lets harnesses create
+// a GetIter / request for an OID with SYMBOLIC arcs without running str::split + u32::from_str on symbolic text.
+pub const SCRIPT_N: usize = 6;
+pub static mut ARC_SCRIPT: [u32; SCRIPT_N] = [0; SCRIPT_N];
+pub static mut ARC_POS: usize = 0;
+
+pub fn stub_u32_from_str_script(_s: &str) -> Result<u32, core::num::ParseIntError> {
+    unsafe {
+        let i = ARC_POS;
+        ARC_POS += 1;
+        if i < SCRIPT_N {
+            Ok(ARC_SCRIPT[i])
+        } else {
+            Err("".parse::<u8>().unwrap_err())
+        }
+    }
+}
+
+/// Arrange for the next SnmpOid::try_from("0.0.0") to produce first octet 43 (1.3) followed by one arc < 128.
+pub fn script_oid_1_3_x(x: u8) {
+    unsafe {
+        ARC_SCRIPT[0] = 1;
+        ARC_SCRIPT[1] = 3;
+        ARC_SCRIPT[2] = (x & 0x7f) as u32;
+        ARC_POS = 0;
+    }
+}
+
+/// lexicographic comparison of two OIDs by ARCS (decoded base-128), content octets `a`, `b` (first octet = arcs 0,1)
+pub fn arcs_less(a: &[u8], b: &[u8]) -> bool {
+    arcs_less_n::<6>(a, b)
+}
+
+/// Same, for OIDs of at most N content octets (loops run N times: keeps harness unwind bounds small).
+pub fn arcs_less_n<const N: usize>(a: &[u8], b: &[u8]) -> bool {
+    let (aa, an) = decode_arcs_n::<N>(a);
+    let (ba, bn) = decode_arcs_n::<N>(b);
+    let mut i = 0;
+    while i < N {
+        if i >= an {
+            return i < bn; // a is a proper prefix of b
+        }
+        if i >= bn {
+            return false;
+        }
+        if aa[i] != ba[i] {
+            return aa[i] < ba[i];
+        }
+        i += 1;
+    }
+    false
+}
+
+pub fn decode_arcs(c: &[u8]) -> ([u64; 6], usize) {
+    decode_arcs_n::<6>(c)
+}
+
+pub fn decode_arcs_n<const N: usize>(c: &[u8]) -> ([u64; 6], usize) {
+    // every sub-identifier is base-128, big endian, continuation bit 0x80; the first one packs arcs 0 and 1 (40*X+Y),
+    // which preserves the order of (X, Y) pairs
+    let mut out = [0u64; 6];
+    let mut n = 0;
+    let mut acc: u64 = 0;
+    let mut i = 0;
+    while i < N {
+        if i < c.len() {
+            acc = (acc << 7) | (c[i] & 0x7f) as u64;
+            if c[i] & 0x80 == 0 {
+                if n < 6 {
+                    out[n] = acc;
+                    n += 1;
+                }
+                acc = 0;
+            }
+        }
+        i += 1;
+    }
+    (out, n)
+}
+
+pub fn is_prefix(p: &[u8], s: &[u8]) -> bool {
+    is_prefix_n::<6>(p, s)
+}
+
+pub fn is_prefix_n<const N: usize>(p: &[u8], s: &[u8]) -> bool {
+    if p.len() > s.len() {
+        return false;
+    }
+    let mut i = 0;
+    while i < N {
+        if i < p.len() && p[i] != s[i] {
+            return false;
+        }
+        i += 1;
+    }
+    true
+}
+
+/// Small value universe for walk harnesses, built directly (no decode).
+pub const V_INT: u8 = 0;
+pub const V_OCTETS: u8 = 1;
+pub const V_NULL: u8 = 2;
+pub const V_NOSUCHOBJ: u8 = 3;
+pub const V_NOSUCHINST: u8 = 4;
+pub const V_EOMV: u8 = 5;
+pub const V_N: u8 = 6;
+pub static OCTETS_SAMPLE: [u8; 2] = [0xab, 0xcd];
+
+pub fn mk_value(kind: u8, n: i64) -> SnmpValue<'static> {
+    match kind {
+        V_INT => SnmpValue::Int(n.into()),
+        V_OCTETS => SnmpValue::OctetString(crate::ber::SnmpOctetString(&OCTETS_SAMPLE)),
+        V_NULL => SnmpValue::Null,
+        V_NOSUCHOBJ => SnmpValue::NoSuchObject,
+        V_NOSUCHINST => SnmpValue::NoSuchInstance,
+        _ => SnmpValue::EndOfMibView,
+    }
+}
+pub fn v_is_data(kind: u8) -> bool {
+    kind == V_INT || kind == V_OCTETS
+}
+pub fn v_leaf_matches(kind: u8, n: i64, l: &Leaf) -> bool {
+    match kind {
+        V_INT => *l == Leaf::I64(n),
+        V_OCTETS => matches!(l, Leaf::Bytes(b) if b.same_content(&OCTETS_SAMPLE)),
+        _ => false,
+    }
+}
+
+/// Stub for `SnmpOid::precedes` in walk-step harnesses (assume-guarantee cut S6): the harness-side arc-wise order.
+/// The real `precedes` is checked to equal this function for all OIDs of 1..4 octets in c06::precedes_spec.
+pub fn stub_precedes<'x>(this: &SnmpOid<'x>, other: &SnmpOid) -> bool
+where
+    'x: 'x,
+{
+    arcs_less_n::<4>(&this.0, &other.0)
+}
